@@ -1,5 +1,8 @@
 import PGM.Properties.C01
+import PGM.Properties.C02
+import PGM.Properties.C04
 import PGM.Properties.C07
+import PGM.Properties.C09
 import PGM.Properties.C12
 import PGM.Properties.C14
 import PGM.Properties.C15
